@@ -9,7 +9,15 @@ Tie        : descriptions d are drawn here, rendered to file text by the EXTRACT
              extracted model parser; model /= real with the predicate true is a correspondence
              failure.  mps_monomial_poly_set_coefficient_s and
              mps_utils_build_equivalent_rational_string are compared with the character-level
-             Coq model and with an independent Fraction oracle.
+             Coq model and with an independent Fraction oracle; build_equivalent_rational_string of
+             common/inline-poly-parser.c (string, exponent, sign, error flag) with the extracted build_ers.
+             Legacy 2.x: every generated 2.x file also goes through the extracted statement-by-statement
+             reader read_v2 (class of exit + refinement to parse); hand-made 2.x headers (all 18 type
+             triples, refused type words, junk precision/degree words, missing tokens) are run through
+             read_v2 and the real parser and the exit taken (error message) is compared.
+             FloatingPoint: the property's predicate is also evaluated by the EXTRACTED within_precb on the
+             real parser's mpf values (must agree with the exact Fraction predicate), and the model store
+             mpf_store at the real mpf precision must satisfy it.
 """
 import os, json
 from fractions import Fraction
@@ -236,6 +244,99 @@ def gen_case(rng, tier_big):
             "order": order, "perm": perm_kind, "layout": chunk_style, "header_simple": header_simple,
             "forms": sorted({num_kind(a) for (_, a, _) in terms[:50]})}
     return L, meta
+
+
+
+V2_MSG = [("Error parsing the input file", "no_token"), ("Found unsupported data_type", "data_type"),
+          ("Found unsupported data_structure", "data_structure"), ("Found unsupported data structure", "coeff_type"),
+          ("Error while reading the input precision", "precision"), ("Error reading the degree", "degree")]
+
+def v2_real_class(real):
+    """the exit of mps_monomial_poly_read_from_stream_v2 the real parser took, from its result / error message"""
+    if real["ok"]:
+        return "v2:user" if real.get("density") == "user" else "v2:poly"
+    msg = real.get("msg", "")
+    for pat, cls in V2_MSG:
+        if pat in msg: return "v2:err:" + cls
+    return "v2:err:coefficients"
+
+def gen_v2_header(rng):
+    """a hand-made 2.x file aimed at the exits of the header reader; returns (text, tag, type word)"""
+    if rng.random() < 0.03:
+        return rng.choice(["", "\n", "   \n\n", "! only a comment\n", "\n! c\n  \n", "!x"]), "no-token", ""
+    a, b, c = rng.choice("sdu"), rng.choice("rc"), rng.choice("qif")
+    if a == "u" and rng.random() < 0.5: a = rng.choice("sd")
+    ty = a + b + c
+    tag = "triple"
+    r = rng.random()
+    if r < 0.10: ty += rng.choice(["x", "xyz", "I", "9", "q", "."]); tag = "long-word"
+    elif r < 0.18: ty = rng.choice(["x", "D", "S", "U", "1", "-", "t"]) + ty[1:]; tag = "bad-first"
+    elif r < 0.26: ty = ty[0] + rng.choice(["x", "R", "C", "i", "q", "0"]) + ty[2]; tag = "bad-second"
+    elif r < 0.34: ty = ty[:2] + rng.choice(["z", "Q", "I", "F", "r", "d", "1"]); tag = "bad-third"
+    elif r < 0.38: ty = ty[:1]; tag = "one-letter"
+    elif r < 0.42: ty = ty[:2]; tag = "two-letters"
+    elif r < 0.46: ty = ty.upper(); tag = "upper-case"
+    toks = [ty]
+    r = rng.random()
+    if r < 0.06: return " ".join(toks) + "\n", tag + "/no-precision", ty
+    pw = rng.choice(["0", "0", "0", "15", "30", "+5", "007"]) if r < 0.7 else rng.choice(["-3", "12x", "1.5", "abc", "x1", "-", "+", ".5"])
+    if r >= 0.7: tag += "/odd-precision"
+    toks.append(pw)
+    r = rng.random()
+    if r < 0.06: return " ".join(toks) + "\n", tag + "/no-degree", ty
+    n = rng.randint(0, 5)
+    if r < 0.7: dw = str(n)
+    else:
+        dw = rng.choice(["+%d" % n, "%dabc" % n, "%d.7" % n, "00%d" % n, "-1", "-%d" % (n + 1), "x", "-", "n3"])
+        tag += "/odd-degree"
+    toks.append(dw)
+    # coefficients: small numbers of the right shape (rationals as pairs), sometimes cut short / bad indices
+    def part():
+        if c == "q": return ["%d" % rng.randint(-9, 9), "%d" % rng.randint(1, 9)]
+        if c == "f": return [rng.choice(["1.5", "-2e3", ".25", "7", "0.0", "3E-2"])]
+        return ["%d" % rng.randint(-99, 99)]
+    def coeff(): return part() + ([] if b == "r" else part())
+    body = []
+    r = rng.random()
+    if a == "s":
+        idx = rng.sample(range(n + 1), rng.randint(0, n + 1))
+        if r < 0.85: body.append(str(len(idx)))
+        else: tag += "/no-count"
+        if r >= 0.85: idx = []
+        for i in idx: body += [str(i)] + coeff()
+        r2 = rng.random()
+        if r2 < 0.08 and body: body += [str(n + 1)] + coeff(); tag += "/index-out-of-range"
+        elif r2 < 0.16 and idx: body += [str(idx[0])] + coeff(); tag += "/repeated-index"
+        elif r2 < 0.22 and body: body += ["k"] + coeff(); tag += "/index-not-a-number"
+        elif r2 < 0.28 and idx: body = body[:-1]; tag += "/cut-short"
+    else:
+        for i in range(n + 1): body += coeff()
+        r2 = rng.random()
+        if r2 < 0.12 and body: body = body[:-1]; tag += "/cut-short"
+        elif r2 < 0.2: body += coeff(); tag += "/extra-tokens"
+    toks += body
+    out, first = "", True
+    if rng.random() < 0.2: out += "! legacy file\n"
+    for t in toks:
+        out += ("" if first else rng.choice([" ", " ", "\n", "  ", "\t", " ! c\n"])) + t
+        first = False
+    return out + "\n", tag, ty
+
+
+def lit_features(l):
+    f = []
+    sg = l.sign
+    f.append("sign:" + ("none" if sg == "" else "minus" if sg == "-" else "plus" if sg == "+" else "blank+sign" if " " in sg and sg.strip() else "blank" if sg.strip() == "" else "several-signs"))
+    if l.ip == "" and l.dot: f.append("form:.5")
+    elif l.dot and l.fp == "": f.append("form:5.")
+    elif l.dot: f.append("form:1.5")
+    else: f.append("form:integer")
+    if len(l.ip) > 1 and l.ip[0] == "0": f.append("leading-zeros")
+    if l.exp:
+        f.append("exp:%s%s" % (l.exp[0], {"N": "", "P": "+", "M": "-"}[l.exp[1]]))
+        if len(l.exp[2]) > 1 and l.exp[2][0] == "0": f.append("exp-leading-zeros")
+    else: f.append("exp:none")
+    return f
 
 
 # ----------------------------------------------------------------------------- result parsing
@@ -486,6 +587,146 @@ def api_cases(ctx, h, n_cases, cov):
             ctx.violation("correspondence:equiv-string", "mps_utils_build_equivalent_rational_string(%r) = %r, model %r" % (s, got, model[s][0]),
                           {"mode": "equiv", "string": s}, no_input=True)
     cov["api_noncanonical_seen"] = noncanon
+    # ---- build_equivalent_rational_string (common/inline-poly-parser.c) itself: string, exponent, sign, error flag
+    feat = {}
+    lits = {}
+    for rows in plans:
+        for (_, a, b) in rows:
+            for x in (a, b):
+                if x[2] is not None:
+                    lits[x[0]] = x[1]
+                    for f_ in lit_features(x[2]): feat[f_] = feat.get(f_, 0) + 1
+    refused, odd = [], []
+    for _ in range(ctx.pick(40, 400)):
+        sg = rng.choice(["", "", "", "-", "+", "--", "+-"]) if len([r_ for r_ in refused if r_[0] in "+-"]) < ctx.pick(8, 40) else ""
+        ip = gen_digits(rng, rng.choice([0, 1, 2, 5])); T = gen_digits(rng, rng.choice([1, 2, 4]))
+        if rng.random() < 0.5: body = ip + "." + gen_digits(rng, rng.choice([0, 1, 3])) + "/" + T
+        else: body = (ip or "1") + rng.choice("eE") + gen_digits(rng, rng.choice([1, 2])) + "/" + T
+        refused.append(sg + body)
+    odd = [" 1.5/2", "1e", "1e+", "1.5e5x", "1.5-3", "2+3", "", "-", "abc", "1..5", "1e5e6", "3/4", "-3/4", " 12 ", "1.5x^2", "0", "-0", "00", "000/5"]
+    estrs = list(dict.fromkeys(strs + refused + odd))
+    eblocks = run_harness_resume(ctx, h, ["B " + s_ for s_ in estrs])
+    emout = ctx.run_model("polfile", "".join("ERS %s\n" % xh(s_) for s_ in estrs)).splitlines()
+    ers_hist = {"accepted": 0, "refused": 0, "exponent-error-flag": 0}
+    for j, (s_, blk) in enumerate(zip(estrs, eblocks)):
+        me, mv, ma = emout[3 * j:3 * j + 3]
+        if me == "ERS ~": mod = None
+        else:
+            w = me.split(" "); mod = (unx(w[1]).decode("latin-1"), int(w[2], 16), -1 if w[3] == "1" else 1, w[4] == "1")
+        cov["api_strings"] += 1
+        rep = {"mode": "inline-ers", "string": s_}
+        if "crash" in blk:
+            signed_refusal = mod is None and s_[:1] in ("+", "-") and "attempting free" in blk["crash"]
+            sig = "crash:build_equivalent_rational_string/refusal-with-sign-prefix" if signed_refusal else "crash:build_equivalent_rational_string:%s" % s_
+            ctx.violation(sig, "build_equivalent_rational_string(%r) crashes (%s); the model %s" %
+                          (s_, blk["crash"][:160].replace("\n", " | "), "refuses the string (NULL)" if mod is None else "returns %r" % (mod,)),
+                          dict(rep, stderr=blk["crash"]))
+            ers_hist["refused" if mod is None else "accepted"] += 1
+            continue
+        got = None
+        ctxerr = None
+        for ln in blk["lines"]:
+            if ln.startswith("ERS ["):
+                k_ = ln.rindex("] "); e_, sg_ = ln[k_ + 2:].split(" "); got = (ln[5:k_], int(e_), int(sg_))
+            elif ln.startswith("CTXERR "): ctxerr = ln[7:] == "1"
+        ers_hist["refused" if got is None else "accepted"] += 1
+        if ctxerr: ers_hist["exponent-error-flag"] += 1
+        same = (got is None and mod is None) or (got is not None and mod is not None and got == mod[:3] and ctxerr == (not mod[3]))
+        # the property's predicate on the real triple, for decimal literals: sign * p * 10^e is the value written
+        if s_ in lits and got is not None:
+            try:
+                val = Fraction(got[0]) * Fraction(10) ** got[1] * got[2]
+            except (ValueError, ZeroDivisionError):
+                val = None
+            if val != lits[s_]:
+                ctx.violation("inline-ers-value:%s" % s_, "build_equivalent_rational_string(%r) = (%r, %d, %d) does not denote %s" % (s_, got[0], got[1], got[2], lits[s_]), rep)
+                continue
+            if mv != "ERSVAL ~":
+                mq = Fraction(int(mv.split(" ")[1], 16), int(mv.split(" ")[2], 16))
+                if mq != lits[s_]: same = False
+            else: same = False
+        elif s_ in lits:
+            ctx.violation("inline-ers-refused:%s" % s_, "build_equivalent_rational_string refuses the well-formed literal %r" % s_, rep)
+            continue
+        if not same:
+            cov["disagreements"] += 1
+            ctx.violation("correspondence:inline-ers", "build_equivalent_rational_string(%r): real %r (error flag %r), model %r" % (s_, got, ctxerr, mod), rep, no_input=True)
+        # internal: utils_assemble of the pieces is the utils.c model's result (C10_utils_uses_inline, instantiated)
+        if s_ in model and (None if ma == "ASM ~" else unx(ma[4:]).decode("latin-1")) != model[s_][0]:
+            ctx.violation("model:utils-assemble", "utils_assemble (build_ers s) differs from equiv_rational_string s on %r" % s_, rep, no_input=True)
+    cov["api_histogram"] = {"literal_features": feat, "inline_ers": ers_hist,
+                            "inline_ers_inputs": {"api-strings": len(strs), "point-or-exponent-with-slash": len(refused), "odd": len(odd)}}
+
+
+def v2_header_cases(ctx, h, n_cases, cov):
+    """hand-made 2.x files aimed at every exit of mps_monomial_poly_read_from_stream_v2's header reader:
+    the extracted statement-by-statement reader (read_v2 through parse_outcome) against the real parser"""
+    rng = ctx.rng
+    d = os.path.join(ctx.scratch, "v2hdr"); os.makedirs(d, exist_ok=True)
+    cases, jobs = [], []
+    for k in range(n_cases):
+        text, tag, ty = gen_v2_header(rng)
+        mode = rng.choice("FFTS")
+        p = os.path.join(d, "h_%d.pol" % k)
+        with open(p, "w", encoding="latin-1") as f: f.write(text)
+        cases.append((text, tag, ty, mode)); jobs.append("%s %s" % (mode, p))
+    blocks = run_harness_resume(ctx, h, jobs)
+    mout = ctx.run_model("polfile", "".join("OUTCOME %s\n" % xh(t) for (t, _, _, _) in cases)).splitlines()
+    if len(mout) != 2 * len(cases):
+        raise vf.InfraError("polfile driver OUTCOME: expected %d lines, got %d" % (2 * len(cases), len(mout)))
+    hist_exit, hist_tag, hist_word = {}, {}, {}
+    for k, ((text, tag, ty, mode), blk) in enumerate(zip(cases, blocks)):
+        line = mout[2 * k + (1 if mode == "S" else 0)]
+        w = line.split(" ", 2)
+        mcls = w[1]
+        if mcls == "empty": mcls = "v2:err:no_token"
+        cov["evaluations"] += 1
+        rep = {"mode": mode, "text_hex": text.encode("latin-1").hex(), "what_for": "v2-header", "tag": tag}
+        hist_tag[tag.split("/")[0]] = hist_tag.get(tag.split("/")[0], 0) + 1
+        for t_ in tag.split("/")[1:]: hist_tag[t_] = hist_tag.get(t_, 0) + 1
+        hist_exit[mcls] = hist_exit.get(mcls, 0) + 1
+        wk = ty[:3] if mcls in ("v2:poly", "v2:user") else "(refused or not reached)"
+        hist_word[wk] = hist_word.get(wk, 0) + 1
+        if "crash" in blk:
+            ctx.violation("crash:v2-header/" + mcls, "the real parser crashed on a 2.x file (%s; model exit %s): %s" % (tag, mcls, blk["crash"][:300].replace("\n", " | ")),
+                          dict(rep, stderr=blk["crash"]))
+            continue
+        real = parse_real_result(blk["lines"])
+        rcls = v2_real_class(real)
+        dm = None
+        if rcls != mcls: dm = "exit taken: real %s (%s), model %s" % (rcls, real.get("msg", "ok"), mcls)
+        elif mcls == "v2:user":
+            if real.get("degree") != int(w[2], 16): dm = "user polynomial degree: real %r model %s" % (real.get("degree"), w[2])
+        elif mcls == "v2:poly":
+            mod = parse_model_result(w[2])
+            dm = differs_model(real, mod, real.get("struct", "")[-1:] == "f")
+        if dm:
+            cov["disagreements"] += 1
+            ctx.violation("correspondence:v2-header:" + mcls, "2.x header reader, model and real parser disagree (%s): %s on %r" % (tag, dm, text[:80]), rep, no_input=True)
+    cov["v2_header_histogram"] = {"exit_taken": hist_exit, "aimed_at": hist_tag, "accepted_type_words": hist_word}
+
+
+def float_predicate_tie(ctx, samples, cov):
+    """the property's predicate for floating-point numbers, evaluated by the EXTRACTED within_precb on the real
+    parser's mpf values, against the exact Fraction predicate; and the model store at the real mpf precision"""
+    if not samples: return
+    lines = []
+    for (bits, v, w, mprec, _) in samples:
+        lines.append("WITHIN %d %d %d %d %d" % (bits, v.numerator, v.denominator, w.numerator, w.denominator))
+        lines.append("STORE %d %d %d %d" % (max(mprec, bits), bits, w.numerator, w.denominator))
+    out = ctx.run_model_lines("polfile", lines, workers=int(os.environ.get("VERIF_JOBS", "6")))
+    agree = store_ok = 0
+    for k, (bits, v, w, mprec, rep) in enumerate(samples):
+        pw = out[2 * k].split(" ")[1] == "1"
+        st = out[2 * k + 1].split(" ")
+        if pw != within(v, w, bits):
+            ctx.violation("correspondence:predicate-within", "extracted within_precb = %r but the exact predicate is %r (bits %d)" % (pw, within(v, w, bits), bits), rep, no_input=True)
+        else: agree += 1
+        sv = Fraction(int(st[1], 16), int(st[2], 16))
+        if st[3] != "1" or not within(sv, w, bits) or abs(sv) > abs(w):
+            ctx.violation("model:store-outside-precision", "mpf_store at %d bits is not within 2^-%d of the written value" % (max(mprec, bits), bits), rep, no_input=True)
+        else: store_ok += 1
+    cov["float_predicate"] = {"numbers": len(samples), "extracted_predicate_agrees": agree, "model_store_within": store_ok}
 
 
 def replay_witnesses(ctx, h, cov):
@@ -588,6 +829,11 @@ def do_replay(ctx, h):
             real = parse_real_result(blocks[0]["lines"]); exp = exp_from_json(obj["expected"]); meta = obj["meta"]
             for sig, msg in compare(real, exp, meta["ct"] == "F", meta)[:3]:
                 ctx.violation(sig, msg, obj)
+    elif mode == "inline-ers":
+        rc, blocks, partial, err = run_harness(ctx, h, ["B " + obj["string"]])
+        if rc != 0 or not blocks:
+            ctx.violation(obj.get("signature", "crash:build_equivalent_rational_string:%s" % obj["string"]),
+                          "build_equivalent_rational_string(%r) crashes: %s" % (obj["string"], err[:200].replace("\n", " | ")), obj)
     elif mode == "api-string":
         p = os.path.join(ctx.scratch, "replay.txt"); open(p, "w", encoding="latin-1").write("0\n0\t%s\tNULL\n" % obj["string"])
         rc, blocks, partial, err = run_harness(ctx, h, ["A " + p])
@@ -611,7 +857,20 @@ def dedupe_violations(ctx):
     ctx.violation = v
 
 
+def load_own_known(ctx):
+    """known/C10.json is this property's fragment of known_findings.json; entries not merged yet are honoured too"""
+    try:
+        own = json.load(open(os.path.join(vf.VERIF, "known", "C10.json"))).get("findings", [])
+    except Exception:
+        return
+    have = {k.get("signature") for k in ctx.known}
+    for f in own:
+        if f.get("status", "open") == "open" and f.get("signature") not in have:
+            ctx.known.append(f)
+
+
 def run(ctx):
+    load_own_known(ctx)
     dedupe_violations(ctx)
     ctx.prove()
     h = ctx.compile_harness(["c10_parse.c"], "c10_parse", mode="san")
@@ -632,14 +891,15 @@ def run(ctx):
         cases = chunks[ci]
         sub = os.path.join(ctx.scratch, "chunk_%d" % ci); os.makedirs(sub, exist_ok=True)
         mout = ctx.run_model("polfile", "\n".join("\n".join(L) for L, _, _ in cases) + "\n").splitlines()
-        if len(mout) != 4 * len(cases):
-            raise vf.InfraError("polfile driver: expected %d lines, got %d: %s" % (4 * len(cases), len(mout), mout[:3]))
+        if len(mout) != 5 * len(cases):
+            raise vf.InfraError("polfile driver: expected %d lines, got %d: %s" % (5 * len(cases), len(mout), mout[:3]))
         jobs, plan = [], []
         for k, (L, meta, r) in enumerate(cases):
-            text = unx(mout[4 * k][7:])
-            exp = parse_model_result(mout[4 * k + 1][7:])
-            mod = parse_model_result(mout[4 * k + 2][6:])
-            mods = parse_model_result(mout[4 * k + 3][9:])
+            text = unx(mout[5 * k][7:])
+            exp = parse_model_result(mout[5 * k + 1][7:])
+            mod = parse_model_result(mout[5 * k + 2][6:])
+            mods = parse_model_result(mout[5 * k + 3][9:])
+            meta["outcome"] = mout[5 * k + 4][8:]
             p = os.path.join(sub, "c_%d.pol" % k)
             with open(p, "wb") as f: f.write(text)
             mode = "F" if r < 0.6 else ("T" if r < 0.75 else "S")
@@ -652,8 +912,16 @@ def run(ctx):
     with ThreadPoolExecutor(max_workers=int(os.environ.get("VERIF_JOBS", "12"))) as ex:
         results = list(ex.map(work, range(len(chunks))))
     ctx.log("model + real parser done")
+    fp_samples = []
+    hist["v2_type_word"] = {}
     for plan, blocks in results:
         for (meta, text, mode, exp, mod, mod_stream) in plan:
+            # the statement-by-statement 2.x reader: rendered 2.x files leave it with the polynomial, 3.x files never
+            # enter it, and it refines to the parser used above (C10_parse_render_legacy, C10_parse_outcome_refines)
+            want = "v2:poly 1" if meta["legacy"] else "v3 1"
+            if meta["outcome"] != want:
+                ctx.violation("model-outcome:" + cls_of(meta, "model"), "extracted parse_outcome (render d) is %r, expected %r" % (meta["outcome"], want),
+                              {"mode": "model", "text_hex": text.hex(), "meta": meta}, no_input=True)
             # the rendering theorem instantiated: model parse of the rendering = denotation
             # (Chebyshev rationals excepted: the model, like the code, does not canonicalise them)
             if mod_stream != exp and not (meta["kind"] == "C" and meta["ct"] == "Q"):
@@ -669,6 +937,18 @@ def run(ctx):
                 continue
             real = parse_real_result(blk["lines"])
             judge(ctx, cov, meta, text, mode, real, exp, mod, seen_classes)
+            if meta["legacy"]:
+                tw = ("s" if meta["sparse"] else "d") + ("r" if meta["real"] else "c") + {"I": "i", "Q": "q", "F": "f"}[meta["ct"]]
+                bump("v2_type_word", tw)
+            if meta["ct"] == "F" and real["ok"] and len(fp_samples) < ctx.pick(3000, 30000):
+                bits = exp["prec"] if exp["prec"] > 0 else 64
+                allc = [("c" if exp["kind"] != "secular" else "a", i, c) for i, c in enumerate(exp["c"])] + [("b", i, c) for i, c in enumerate(exp["b"])]
+                for (rtag, i, (re_, im_)) in rng.sample(allc, min(2, len(allc))):
+                    m = real["M"].get((rtag, i))
+                    if m is None: continue
+                    for got, want_, mp in ((m[0], re_, m[2]), (m[1], im_, m[3])):
+                        fp_samples.append((bits, mpf_val(got), frac(want_), mp,
+                                           {"mode": mode, "text_hex": text.hex(), "meta": meta, "coefficient": "%s[%d]" % (rtag, i)}))
             bump("kind", KINDS[meta["kind"]]); bump("syntax", "2.x" if meta["legacy"] else "3.x"); bump("ctype", meta["ct"])
             bump("density", "sparse" if meta["sparse"] else "dense"); bump("precision", str(meta["prec"]))
             bump("degree", "1-8" if meta["n"] <= 8 else "9-40" if meta["n"] <= 40 else "41-200")
@@ -678,6 +958,10 @@ def run(ctx):
             if len(samples) < 4 and len(text) < 400:
                 samples.append({"file": text.decode("latin-1"), "class": cls_of(meta, mode)})
     ctx.log("judged %d files" % cov["evaluations"])
+    float_predicate_tie(ctx, fp_samples, cov)
+    ctx.log("float predicate tie done (%d numbers)" % len(fp_samples))
+    v2_header_cases(ctx, h, ctx.pick(1200, 12000), cov)
+    ctx.log("2.x header cases done")
     api_cases(ctx, h, ctx.pick(300, 3000), cov)
     ctx.log("api done")
     replay_witnesses(ctx, h, cov)
@@ -700,6 +984,7 @@ def run(ctx):
             "modelled, not verified: GMP mpz/mpq/mpf_set_str (by mpq_str_value/decimal_value), getline/tokenisation at the level of lines and "
             "white-space separated tokens, C int overflow not modelled",
             "the generator's Fraction oracle for API strings (independent of the Coq model)",
+            "2.x reader: sscanf %d/%ld/%3s modelled by scan_int / the first three characters; exits identified on the real side by the error message",
         ],
     })
     return ctx.finish("proof", cov, [
